@@ -122,7 +122,7 @@ pub fn record(seed: u64, n: usize, out: &str) {
     let mut rng = StdRng::seed_from_u64(seed);
     let mut f = std::io::BufWriter::new(std::fs::File::create(out).expect("create trace"));
     let boundary: Vec<u64> = vec![0, 1, (1 << 33) - 1, 1 << 33, (1 << 33) + 1, 1 << 43, 11081109438221, 11081109438222, 11081109438223,
-                                  1 << 44, 1 << 63, u64::MAX, u64::MAX - 1, 5160, 5161, 4294967295, 4294967296];
+                                  1 << 44, 1 << 63, u64::MAX, u64::MAX - 1, 5160, 5161, 4294967295, 4294967296, 4929753061, 4150723358, 4929753061 + (1 << 33)];
     for i in 0..n {
         let before: u64 = if i < boundary.len() * 3 { boundary[i / 3] } else {
             match rng.gen_range(0..4) { 0 => rng.gen::<u64>(), 1 => rng.gen_range(0..1u64 << 33), 2 => rng.gen_range(0..1u64 << 44), _ => rng.gen_range(0..100000) }
